@@ -6,7 +6,7 @@
   3 runs the property's direct oracles on the implementation's own outcomes;
   4 decides (DESIGN.md 3.4) and writes evidence/<id>.json."""
 import os, sys, re, json, time, random, collections, glob, subprocess, itertools
-import vlib, gen, harvest
+import vlib, gen, harvest, oracles
 from vlib import log
 
 SIZES = {
@@ -64,7 +64,7 @@ class Ctx:
         self.cov['build_s'] = round(time.time() - t, 1)
 
     # ---------------------------------------------------------------- running inputs
-    def run_set(self, name, items, obs=vlib.obs_full, backend='s1', flags=(), model=True):
+    def run_set(self, name, items, obs=vlib.obs_full, backend='s1', flags=(), model=True, sem=False):
         """items: list of gen.Item or (id, text, meta).  returns list of records"""
         cases = []
         metas = {}
@@ -76,14 +76,20 @@ class Ctx:
                 cid, text, meta = it
                 metas[cid] = (text, meta, None)
             cases.append((cid, text))
+        if sem and '--str' not in flags:
+            flags = tuple(flags) + ('--str',)
         h = vlib.run_impl(cases, backend, self.workdir, flags=flags, tag=name)
-        m = vlib.run_model(self.workdir, backend, tag=name) if model else {}
+        m = vlib.run_model(self.workdir, backend, tag=name, with_str=sem) if model else {}
+        sh = vlib.run_shape(self.workdir, backend, tag=name) if sem else {}
+        msh = vlib.run_shape(self.workdir, backend, tag=name, ext='.model') if (sem and model) else {}
         recs = []
         st = collections.Counter()
         for cid, text in cases:
             hv = h.get(cid, {})
             rec = {'id': cid, 'text': text, 'meta': metas[cid][1], 'item': metas[cid][2], 'out': hv.get('OUT'), 'raw': hv.get('RAW'),
-                   'out2': hv.get('OUT2'), 'str': hv.get('STR'), 'model': m.get(cid, {}).get('MODEL')}
+                   'out2': hv.get('OUT2'), 'str': hv.get('STR'), 'model': m.get(cid, {}).get('MODEL'),
+                   'shape': sh.get(cid, {}).get('SHAPE'), 'sem': sh.get(cid, {}).get('SEM'),
+                   'mshape': msh.get(cid, {}).get('MSHAPE'), 'msem': msh.get(cid, {}).get('MSEM')}
             if rec['out'] is None:
                 st['unparsable_input'] += 1
                 continue
@@ -403,7 +409,207 @@ def attr_shape_cases():
     return out
 
 
+
+# ---------------------------------------------------------------------------------------------- C04
+def prop_C04(ctx):
+    ctx.build()
+    q = ctx.tier == 'quick'
+    items = gen.grid_trait_instrs() + gen.multi_trait_items(ctx.rng, 1500 if q else 12000)
+    recs = ctx.run_set('trait_grid', items, vlib.obs_headers)
+    recs += ctx.run_set('corpus', corpus_cases(), vlib.obs_headers)
+    comp = ctx.run_set('composites', gen.composites(ctx.rng, ctx.sz['comp'] // 2), vlib.obs_headers)
+    n_chk = 0
+    perm_items = []
+    for r in recs + comp:
+        it = r.get('item')
+        if it is None or vlib.outcome_class(r['out']) != 'ok':
+            continue
+        if any(isinstance(a, gen.Group) or (a.name in gen.TRAIT_NAMES and not hasattr(a, 'cp')) or a.name == 'o2o' for a in it.attrs):
+            continue
+        if gen.uses_repeat(it):
+            continue
+        exp = oracles.expected_headers(it)
+        act = oracles.actual_headers(r['out'])
+        n_chk += 1
+        if act != exp:
+            ctx.report(r, 'generated impl headers differ from the documented set: expected %r, got %r' % (exp, act), 'README table vs impl headers',
+                       key='headers')
+        if len([a for a in it.attrs if a.name in gen.TRAIT_NAMES]) > 1 and len(perm_items) < (400 if q else 3000):
+            it2 = it.clone()
+            ctx.rng.shuffle(it2.attrs)
+            it2.meta = dict(it.meta, perm_of=r['id'])
+            perm_items.append((it2, r))
+    ctx.cov['headers_checked'] = n_chk
+    # order independence: the same instructions in another order give the same header multiset
+    if perm_items:
+        precs = ctx.run_set('permuted', [x[0] for x in perm_items], vlib.obs_headers)
+        nperm = 0
+        for pr, (_, orig) in zip(precs, perm_items):
+            if vlib.outcome_class(pr['out']) != 'ok':
+                # a permutation may legitimately be rejected only if the original was (it was accepted)
+                ctx.report(pr, 'reordering the instructions changed the accept/reject decision', 'permute instructions', key='order-verdict')
+                continue
+            nperm += 1
+            if oracles.actual_headers(pr['out']) != oracles.actual_headers(orig['out']):
+                ctx.report(pr, 'reordering the trait instructions changed the set of impls', 'permute instructions', key='order')
+        ctx.cov['permutations_checked'] = nperm
+    return ctx.finish()
+
+
+# ---------------------------------------------------------------------------------------------- C20
+def prop_C20(ctx):
+    ctx.build()
+    recs = generic_sets(ctx, ['corpus', 'struct_grid', 'enum_grid', 'vfield_grid', 'trait_grid', 'comp'], vlib.obs_idents)
+    recs += ctx.run_set('flatten', gen.c03_cases(ctx.rng, 600 if ctx.tier == 'quick' else 5000), vlib.obs_idents)
+    n = 0
+    for r in recs:
+        if vlib.outcome_class(r['out']) != 'ok':
+            continue
+        n += 1
+        bad = oracles.foreign_idents(r['out'], r['text'])
+        if bad:
+            ctx.report(r, 'generated code uses identifiers that are neither the user\'s nor core/o2o::traits names: %s' % sorted(bad), 'identifier scan', key='ident')
+        for pth in oracles.rooted_paths(vlib.ok_tokens(r['out'])):
+            if pth[:2] not in (('core', 'convert'), ('core', 'result')) and '::' + pth[0] not in r['text'].replace(' ', ''):
+                ctx.report(r, 'generated code names a library path outside ::core::convert / ::core::result: ::%s' % '::'.join(pth), 'path scan', key='path')
+    ctx.cov['accepted_outputs_scanned'] = n
+    return ctx.finish()
+
+
+# ---------------------------------------------------------------------------------------------- metamorphic helpers
+def metamorphic(ctx, name, pairs, why, oracle, key, compare='tokens'):
+    """pairs: list of (orig record, transformed Item).  Expands the transformed inputs with the implementation
+    (and the model) and compares each with its original: same verdict, token-identical impls (as a multiset
+    when compare == 'multiset')."""
+    if not pairs:
+        return 0
+    trecs = ctx.run_set(name, [p[1] for p in pairs], vlib.obs_full)
+    n = 0
+    for tr, (orig, _) in zip(trecs, pairs):
+        n += 1
+        a, b = orig['out'], tr['out']
+        ca, cb = vlib.outcome_class(a), vlib.outcome_class(b)
+        bad = None
+        if ca != cb:
+            bad = '%s: verdict changed (%s -> %s)' % (why, ca, cb)
+        elif ca == 'ok':
+            if compare == 'multiset':
+                ia = sorted(vlib.toks_text(i) for i in vlib.split_impls(vlib.ok_tokens(a)))
+                ib = sorted(vlib.toks_text(i) for i in vlib.split_impls(vlib.ok_tokens(b)))
+                if ia != ib:
+                    bad = '%s: generated impls differ' % why
+            elif vlib.nospacing(a) != vlib.nospacing(b):
+                bad = '%s: generated code differs' % why
+        elif ca == 'err' and compare != 'verdict-only':
+            ma, mb = vlib.err_msgs(a), vlib.err_msgs(b)
+            if compare == 'msgs' and sorted(ma) != sorted(mb):
+                bad = '%s: diagnostics differ' % why
+        if bad:
+            ctx.report(tr, bad, oracle, key=key, extra={'original_input': orig['text'], 'original_outcome': (a or '')[:3000]})
+    return n
+
+
+# ---------------------------------------------------------------------------------------------- C12
+def prop_C12(ctx):
+    ctx.build()
+    q = ctx.tier == 'quick'
+    base = sample(ctx.rng, gen.grid_struct_lines(names=gen.TRAIT_NAMES), 1500 if q else 12000) \
+        + sample(ctx.rng, gen.grid_enum_lines(names=gen.TRAIT_NAMES, full=False), 1500 if q else 12000) \
+        + sample(ctx.rng, gen.grid_variant_fields(names=gen.TRAIT_NAMES), 800 if q else 6000) \
+        + gen.grid_trait_instrs() + gen.composites(ctx.rng, ctx.sz['comp']) + gen.shortcut_items(ctx.rng, 800 if q else 6000)
+    base = [it for it in base if gen.has_shortcut(it) and not gen.uses_repeat(it)]
+    recs = ctx.run_set('shortcuts', base, vlib.obs_full)
+    pairs = [(r, gen.expand_shortcuts(r['item'])) for r in recs if r.get('item') is not None]
+    n = metamorphic(ctx, 'written_out', pairs, 'writing the shortcut out as the basic instructions it abbreviates', 'shortcut vs basics, both expanded by the implementation',
+                    'shortcut', compare='multiset')
+    ctx.cov['shortcut_pairs_compared'] = n
+    return ctx.finish()
+
+
+# ---------------------------------------------------------------------------------------------- C13
+def prop_C13(ctx):
+    ctx.build()
+    q = ctx.tier == 'quick'
+    gen.BARE_FORMS = bare_forms()
+    base = sample(ctx.rng, gen.grid_struct_lines(), 1000 if q else 8000) + sample(ctx.rng, gen.grid_enum_lines(full=False), 1000 if q else 8000) \
+        + sample(ctx.rng, gen.grid_variant_fields(), 600 if q else 5000) + sample(ctx.rng, gen.grid_trait_instrs(), 400 if q else 1440) \
+        + gen.composites(ctx.rng, ctx.sz['comp']) + gen.c03_cases(ctx.rng, 300 if q else 3000)
+    recs = ctx.run_set('bare', base, vlib.obs_full)
+    total = 0
+    for mode in ('each', 'group', 'mix'):
+        pairs = []
+        for r in recs:
+            it = r.get('item')
+            if it is None:
+                continue
+            # only instructions that have a bare form AT THEIR LEVEL are in the property's scope
+            if not gen.all_bare_valid(it):
+                continue
+            t = gen.respell(it, ctx.rng, mode)
+            if t.render() != r['text']:
+                pairs.append((r, t))
+        total += metamorphic(ctx, 'respelled_' + mode, pairs, 'rewriting bare instructions as #[o2o(..)] (%s)' % mode,
+                             'bare vs #[o2o(..)] spelling, both expanded by the implementation', 'spelling', compare='msgs')
+    ctx.cov['respelled_pairs_compared'] = total
+    return ctx.finish()
+
+
+def bare_forms():
+    src = open(os.path.join(vlib.REPO, 'o2o-macros/src/lib.rs')).read()
+    m = re.search(r'attributes\s*\((.*?)\)\s*\)\s*\]', src, flags=re.S)
+    names = re.findall(r'\b([a-z_0-9]+)\b', re.sub(r'//[^\n]*', '', m.group(1))) if m else []
+    return set(names)
+
+
+# ---------------------------------------------------------------------------------------------- C10
+def prop_C10(ctx):
+    ctx.build()
+    q = ctx.tier == 'quick'
+    items = gen.c10_cases(ctx.rng, 3000 if q else 30000)
+    recs = ctx.run_set('expressions', items, vlib.obs_full)
+    recs2 = generic_sets(ctx, ['corpus', 'comp'], vlib.obs_full)
+    n = 0
+    for r in recs:
+        it = r['item']
+        if vlib.outcome_class(r['out']) != 'ok':
+            continue
+        exp = it.meta.get('expect')      # list of (header kind predicate, flattened expected token texts)
+        if not exp:
+            continue
+        impls = vlib.split_impls(vlib.ok_tokens(r['out']))
+        for imp in impls:
+            hdr = vlib.header_of(imp)
+            from_side = ' From <' in hdr or ' TryFrom <' in hdr
+            want = exp['from'] if from_side else exp['into']
+            if want is None:
+                continue
+            n += 1
+            flat = vlib.flatten(imp)
+            if not contains_seq(flat, want):
+                ctx.report(r, 'the substituted expression does not reach the generated code unchanged and in order: expected the contiguous tokens %r in the impl `%s`'
+                           % (' '.join(want), hdr[:120]), 'flattened token search', key='subst',
+                           extra={'expected_tokens': want})
+    ctx.cov['expression_sites_checked'] = n
+    return ctx.finish()
+
+
+def contains_seq(hay, needle):
+    n, m = len(hay), len(needle)
+    if m == 0:
+        return True
+    first = needle[0]
+    for i in range(n - m + 1):
+        if hay[i] == first and hay[i:i + m] == needle:
+            return True
+    return False
+
+
 PROPS = {
+    'C04': prop_C04,
+    'C10': prop_C10,
+    'C12': prop_C12,
+    'C13': prop_C13,
+    'C20': prop_C20,
     'C16': prop_C16,
     'C18': prop_C18,
     'C19': prop_C19,
